@@ -218,8 +218,11 @@ def create_rules(prog: Program, rep: Report) -> None:
     fi = prog.lview(prog.role_func("output", "create_netcdf"))
     src = unparse(fi.node)
     m = [n for n in walk_no_nested(fi.node) if isinstance(n, ast.Assign) and unparse(n.targets[0]) == "self.local_num_records"]
-    ok = len(m) == 1 and unparse(m[0].value) in ("min(self.numrec, self.num_records - self.record_count)", "min(self.num_records - self.record_count, self.numrec)")
-    rep.check("R06.2", fi.qual, "local_num_records = min(numrec, records remaining)", ok, what_bad=f"got {unparse(m[0].value) if m else None}", what_ok="min(numrec, num_records - record_count)", loc=fi.loc())
+    from ..program import xunparse as _xu
+
+    mv = _xu(m[0].value, fi.node) if m else None  # temporaries expanded
+    ok = len(m) == 1 and mv in ("min(self.numrec, self.num_records - self.record_count)", "min(self.num_records - self.record_count, self.numrec)")
+    rep.check("R06.2", fi.qual, "local_num_records = min(numrec, records remaining)", ok, what_bad=f"got {mv}", what_ok="min(numrec, num_records - record_count)", loc=fi.loc())
     # time units vs nctime unit
     tk = prog.module("timekeeper")
     # the name bound to createVariable("time", ...), whatever it is called
